@@ -2,6 +2,7 @@ package main
 
 import (
 	"bytes"
+	"regexp"
 	"context"
 	"fmt"
 	"os"
@@ -65,8 +66,12 @@ func fileSafe(s string) string {
 }
 
 func runSolver(spec solverSpec, file string, timeoutS int) (string, string, int64) {
+	return runSolverCtx(context.Background(), spec, file, timeoutS)
+}
+
+func runSolverCtx(parent context.Context, spec solverSpec, file string, timeoutS int) (string, string, int64) {
 	args := spec.args(file, timeoutS)
-	ctx, cancel := context.WithTimeout(context.Background(), time.Duration(timeoutS+3)*time.Second)
+	ctx, cancel := context.WithTimeout(parent, time.Duration(timeoutS+3)*time.Second)
 	defer cancel()
 	cmd := exec.CommandContext(ctx, args[0], args[1:]...)
 	var out bytes.Buffer
@@ -95,6 +100,70 @@ type solveOpts struct {
 	all      bool // run every solver on every obligation (thorough)
 	jobs     int
 	seed     int
+}
+
+
+// raceSolvers runs the portfolio concurrently and keeps the first definite answer.
+func raceSolvers(o *Obligation, file string, tmo int, want string) []string {
+	type res struct {
+		name, r, out string
+		ms           int64
+	}
+	ctx, cancel := context.WithCancel(context.Background())
+	defer cancel()
+	var specs []solverSpec
+	for _, sd := range []int{1, 2} {
+		sd := sd
+		specs = append(specs, solverSpec{fmt.Sprintf("z3-5.1.0(seed %d)", sd), func(f string, t int) []string {
+			return []string{"z3-new", fmt.Sprintf("-T:%d", t), fmt.Sprintf("smt.random_seed=%d", sd), fmt.Sprintf("sat.random_seed=%d", sd), f}
+		}})
+	}
+	specs = append(specs, solvers[1])
+	// the same goal with fewer hypotheses (sound: assumptions are only dropped): the definitions the goal
+	// depends on and the assumptions that share a symbol with it
+	if cone := coneOfInfluence(o.smt(false), 1); cone != "" {
+		f3 := file + ".cone.smt2"
+		_ = os.WriteFile(f3, []byte(cone), 0o644)
+		defer os.Remove(f3)
+		for _, sd := range []int{0, 1} {
+			sd := sd
+			specs = append(specs, solverSpec{fmt.Sprintf("z3-5.1.0(relevant hypotheses, seed %d)", sd), func(f string, t int) []string {
+				return []string{"z3-new", fmt.Sprintf("-T:%d", t), fmt.Sprintf("smt.random_seed=%d", sd), f3}
+			}})
+		}
+	}
+	// cvc5 reads a copy without z3 options
+	f2 := file + ".cvc5.smt2"
+	_ = os.WriteFile(f2, []byte(o.smt(false)), 0o644)
+	defer os.Remove(f2)
+	specs = append(specs, solverSpec{solvers[2].name, func(f string, t int) []string { return solvers[2].args(f2, t) }})
+	ch := make(chan res, len(specs))
+	for _, sp := range specs {
+		go func(sp solverSpec) {
+			r, out, ms := runSolverCtx(ctx, sp, file, tmo)
+			ch <- res{sp.name, r, out, ms}
+		}(sp)
+	}
+	var tried []string
+	var maxMs int64
+	for range specs {
+		x := <-ch
+		if x.ms > maxMs {
+			maxMs = x.ms
+		}
+		if x.r == "unsat" || x.r == "sat" {
+			tried = append(tried, x.name+":"+x.r)
+			o.record(x.name, x.r, x.out, want)
+			cancel()
+			break
+		}
+		if ctx.Err() == nil {
+			tried = append(tried, x.name+":"+x.r)
+			o.record(x.name, x.r, x.out, want)
+		}
+	}
+	o.Millis += maxMs
+	return tried
 }
 
 // discharge runs the portfolio on every obligation.
@@ -129,6 +198,27 @@ func discharge(obls []*Obligation, opt solveOpts) {
 			tmo := opt.timeoutS
 			if o.Cover {
 				tmo = 3
+			}
+			if !o.Cover && !opt.all {
+				// stage 1: the default configuration with a short budget decides almost everything
+				quick := 3
+				if quick > tmo {
+					quick = tmo
+				}
+				r, out, ms := runSolver(solvers[0], file, quick)
+				o.Millis += ms
+				results = append(results, solvers[0].name+":"+r)
+				o.record(solvers[0].name, r, out, want)
+				if o.Result == "unsat" || o.Result == "sat" {
+					o.Tried = results
+					return
+				}
+				// stage 2 runs after every obligation had its quick attempt (so that the races get the cores)
+				o.Tried = results
+				hardMu.Lock()
+				hard = append(hard, hardItem{o, file, tmo, want})
+				hardMu.Unlock()
+				return
 			}
 			for si, s := range solvers {
 				if o.Cover && si > 0 {
@@ -170,7 +260,32 @@ func discharge(obls []*Obligation, opt solveOpts) {
 		}(i, o)
 	}
 	wg.Wait()
+	// stage 2: instantiation-heavy goals vary from a fraction of a second to a timeout with the solver's
+	// random seed and with irrelevant hypotheses; race several configurations, the first answer wins
+	hsem := make(chan struct{}, 4)
+	for _, h := range hard {
+		wg.Add(1)
+		hsem <- struct{}{}
+		go func(h hardItem) {
+			defer wg.Done()
+			defer func() { <-hsem }()
+			rs := raceSolvers(h.o, h.file, 2*h.tmo, h.want)
+			h.o.Tried = append(h.o.Tried, rs...)
+		}(h)
+	}
+	wg.Wait()
+	hard = nil
 }
+
+type hardItem struct {
+	o    *Obligation
+	file string
+	tmo  int
+	want string
+}
+
+var hard []hardItem
+var hardMu sync.Mutex
 
 func (o *Obligation) record(solver, r, out, want string) {
 	o.AllResults = append(o.AllResults, solver+":"+r)
@@ -196,4 +311,115 @@ func (o *Obligation) ok() bool {
 		return o.Result != "unsat"
 	}
 	return o.Result == "unsat"
+}
+
+var tokRe = regexp.MustCompile(`[A-Za-z_][A-Za-z0-9_!?.]*`)
+var defRe = regexp.MustCompile(`^\(assert \(= ([A-Za-z_][A-Za-z0-9_!?.]*) `)
+var smtWords = map[string]bool{"assert": true, "forall": true, "exists": true, "select": true, "store": true, "ite": true, "and": true, "or": true, "not": true,
+	"let": true, "Int": true, "Bool": true, "Array": true, "Str": true, "Slice": true, "true": true, "false": true, "pattern": true, "qid": true, "as": true, "const": true, "distinct": true}
+
+// coneOfInfluence keeps, of the assumptions that follow the prelude, the definitions (assert (= c e)) of the
+// constants the goal depends on (transitively) and, `depth` times, the assumptions sharing an uncommon symbol
+// with what has been kept. The result is a weaker set of hypotheses for the same goal.
+func coneOfInfluence(text string, depth int) string {
+	lines := strings.Split(text, "\n")
+	gi := -1
+	first := -1
+	for i, l := range lines {
+		if strings.HasPrefix(l, "(assert") {
+			gi = i
+		}
+		if first < 0 && strings.HasPrefix(l, "(declare-const p_") {
+			first = i
+		}
+	}
+	if gi < 0 || first < 0 {
+		return ""
+	}
+	toks := func(l string) map[string]bool {
+		m := map[string]bool{}
+		for _, t := range tokRe.FindAllString(l, -1) {
+			if !smtWords[t] {
+				m[t] = true
+			}
+		}
+		return m
+	}
+	var asserts []int
+	cnt := map[string]int{}
+	lt := map[int]map[string]bool{}
+	defs := map[string][]int{}
+	for i := first; i < gi; i++ {
+		if !strings.HasPrefix(lines[i], "(assert") {
+			continue
+		}
+		asserts = append(asserts, i)
+		lt[i] = toks(lines[i])
+		for t := range lt[i] {
+			cnt[t]++
+		}
+		if m := defRe.FindStringSubmatch(lines[i]); m != nil {
+			defs[m[1]] = append(defs[m[1]], i)
+		}
+	}
+	common := func(t string) bool { return cnt[t]*4 > len(asserts) }
+	need := map[string]bool{}
+	for t := range toks(lines[gi]) {
+		if !common(t) {
+			need[t] = true
+		}
+	}
+	keep := map[int]bool{}
+	for d := 0; ; d++ {
+		for changed := true; changed; {
+			changed = false
+			for s := range need {
+				for _, i := range defs[s] {
+					if !keep[i] {
+						keep[i] = true
+						for t := range lt[i] {
+							if !common(t) && !need[t] {
+								need[t] = true
+								changed = true
+							}
+						}
+					}
+				}
+			}
+		}
+		if d == depth {
+			break
+		}
+		add := map[string]bool{}
+		for _, i := range asserts {
+			if keep[i] {
+				continue
+			}
+			for t := range lt[i] {
+				if need[t] {
+					keep[i] = true
+					break
+				}
+			}
+			if keep[i] {
+				for t := range lt[i] {
+					if !common(t) {
+						add[t] = true
+					}
+				}
+			}
+		}
+		for t := range add {
+			need[t] = true
+		}
+	}
+	var b strings.Builder
+	for i, l := range lines {
+		if i >= first && i < gi && strings.HasPrefix(l, "(assert") && !keep[i] {
+			continue
+		}
+		b.WriteString(l)
+		b.WriteString("\n")
+	}
+	return b.String()
 }
